@@ -62,6 +62,12 @@ def gen_scripts(tier, seed):
             scripts.append(("early-close-e", "ce,o%d,d5,o%d" % (a, b)))
             scripts.append(("exit-code", "e%d,o%d,x%d" % (a, b, r.choice([1, 3, 100, 255]))))
             scripts.append(("par-delays", "o%d,d10,o%d|d3,e%d,d10,e%d" % (a, b, b, a)))
+    # streams whose LAST burst is exactly a power-of-two buffer size (the reader sees "buffer full" and then EOF), alone and after other data
+    for b in (4096, 8192, 16384, 32768, 65536, 131072):
+        scripts.append(("exact-buffer-last-burst", "o%d" % b))
+        scripts.append(("exact-buffer-last-burst", "e7,d30,e%d" % b))
+        scripts.append(("exact-buffer-last-burst", "o%d,d30,o%d|e%d,d40,e%d" % (b, b, 3, b)))
+        scripts.append(("exact-buffer-last-burst", "w%d,o%d,d20,o%d" % (b, 3 * b, b)))
     n_rand = 300 if tier == "quick" else 4000
     for _ in range(n_rand):
         left, right = [], []
